@@ -9,9 +9,9 @@ git checkout -q -- src; rm -f tests/seed_demo.rs
 git apply "_out/$K/patch.diff" || { echo "$ID: patch does not apply"; exit 1; }
 SUITE=$(cargo test --workspace --offline 2>&1 | grep -E "^test result" | awk '{p+=$4; f+=$6} END {print p" "f}')
 cp "_out/$K/demo.rs" tests/seed_demo.rs
-cargo test --offline --test seed_demo >/tmp/confirm-$ID.with 2>&1; WITH=$?
+cargo test --offline $EXTRA --test seed_demo >/tmp/confirm-$ID.with 2>&1; WITH=$?
 git checkout -q -- src
-cargo test --offline --test seed_demo >/tmp/confirm-$ID.without 2>&1; WITHOUT=$?
+cargo test --offline $EXTRA --test seed_demo >/tmp/confirm-$ID.without 2>&1; WITHOUT=$?
 rm -f tests/seed_demo.rs
 echo "$ID: suite(passed failed)=$SUITE demo_with_patch_exit=$WITH demo_without_patch_exit=$WITHOUT"
 if [ "$SUITE" = "73 0" ] && [ $WITH -ne 0 ] && [ $WITHOUT -eq 0 ]; then
